@@ -126,7 +126,7 @@ class Task:
     __slots__ = ("sched", "tid", "proc", "name", "role", "baton", "state", "pred",
                  "deadline", "timed_out", "killed", "ident", "daemon", "what",
                  "unwound", "is_py_thread", "opsig", "nops", "sigmask", "exc",
-                 "line_gap", "kills_seen", "api")
+                 "line_gap", "kills_seen", "api", "wobj")
 
     def __init__(self, sched, proc, name):
         self.sched = sched
@@ -154,6 +154,7 @@ class Task:
         self.line_gap = 1 << 60
         self.kills_seen = 0
         self.api = None
+        self.wobj = None
 
     def __repr__(self):
         return f"<T{self.tid} {self.role} p{self.proc.pid} {self.state} {self.what}>"
@@ -374,8 +375,13 @@ class Sched:
             if t.state == DONE:
                 continue
             fr = frames.get(t.ident)
+            w = t.wobj
             out.append(dict(tid=t.tid, role=t.role, pid=t.proc.pid, state=t.state,
                             what=t.what, alive=t.proc.alive, api=t.api,
+                            waits_for=(dict(sem=w.name, last_acquirer=w.last_acq,
+                                            acquirer_alive=(self.kernel.procs[w.last_acq].alive
+                                                            if w.last_acq in self.kernel.procs else None))
+                                       if isinstance(w, Sem) and t.what == "sem" else None),
                             where=_stack_funcs(fr), deadline=t.deadline))
         return out
 
@@ -557,13 +563,14 @@ class OpenFile:
 
 
 class Sem:
-    __slots__ = ("value", "linked", "name", "creator")
+    __slots__ = ("value", "linked", "name", "creator", "last_acq")
 
     def __init__(self, value, name, creator):
         self.value = value
         self.linked = True
         self.name = name
         self.creator = creator
+        self.last_acq = None
 
 
 class Proc:
